@@ -17,7 +17,17 @@ RULE = ("generated structures inside the fixed-width PDB limits (1-14 atoms, nam
         "numbers, empty/'.'/'?' optional fields, full-width values in every column, one large structure), written and "
         "re-read through every writer x reader chain of length 2 and sampled chains of length 3 (incl. re-writing a "
         "CIF-read structure, which re-uses the original file); the bundled entries 1pdj / 5khe; filter sets; a smaller "
-        "malformed stream (over-wide fields, blanks, quotes) compared with the model only. distinct = distinct "
+        "malformed stream (over-wide fields, blanks, quotes) compared with the model only. Widened: mixed-case names, "
+        "one-character fields holding # _ ; ' $ & + * -, exact binary ties of the third decimal; arrays handed to Structure "
+        "as float32/float64, Fortran-ordered / strided / negatively strided / read-only coordinates, float32 / int32 "
+        "columns, object / over-wide string columns, python lists; file names with upper/mixed-case extensions, dots "
+        "elsewhere in the name or directory, unsupported extensions; sequences on fixed file names (rewritten with a "
+        "same-size file of other content, read, re-written under a second fixed name); the file a structure was read "
+        "from deleted / emptied / replaced before the structure is written; entries in the archive's own PDB and mmCIF "
+        "layouts (other record types, TER serial gaps, trimmed lines, element-aligned names; other categories, text "
+        "fields, permuted / missing / extra atom_site columns, quoted names, rows broken over lines) read in both formats "
+        "and round-tripped; filters as set / frozenset, by keyword / position, with many names, followed by writing the "
+        "filtered structure and by an unfiltered read; 10 240 atoms through mmCIF on the real code. distinct = distinct "
         "(structure, conversion path) pairs and (file, filter) pairs; single-atom all-default structures are not counted")
 ASSUMPTIONS = [
     "'representable in fixed-width PDB columns' is taken literally: coordinates in [-999.999, 9999.999] (%8.3f), "
@@ -26,6 +36,11 @@ ASSUMPTIONS = [
     "float -> decimal (f'{x:.3f}') and decimal -> float (float(), numpy astype) are CPython's / numpy's: numbers "
     "enter the model as validated decimal text and are compared as text at the written precision",
     "Python int() underscore grouping, float() exponents/inf/nan and non-ASCII white space are not modelled (never generated)",
+    "archive-style entries are produced by the harness's own formatter following the wwPDB conventions (legal files, "
+    "not real depositions): blank-separated loop rows (no tabs), unquoted tokens never start with # _ ; $, quoted "
+    "tokens carry no blanks; 'the atoms the files state' are the names / element / numbers put into both files",
+    "round-trip tolerances are derived, not chosen: |written - stored| <= 0.0005 (3 decimals) plus half a float32 ulp "
+    "(< 0.00049 below 16384) on reading < 0.001; float64 coordinates handed to Structure are compared as stored",
 ]
 TRUSTED = ["C09: CPython string formatting / float parsing and numpy string->number casts are exercised, not modelled"]
 
@@ -67,15 +82,65 @@ def struct_atoms(s):
     return out
 
 
-def make_struct(atoms, metadata=None):
+FORMS = {"coord": ["f32", "f64", "F", "strided", "reversed", "readonly", "list"],
+         "num": ["f64", "f32", "list"], "int": ["i64", "i32", "list"], "str": ["U", "object", "wideU", "list"]}
+
+
+def gen_form(rng):
+    """how the arrays are handed to `Structure`: dtypes, memory layouts, python lists"""
+    return {k: str(rng.choice(v)) for k, v in FORMS.items()}
+
+
+def make_struct(atoms, metadata=None, form=None):
+    """`form` (see FORMS) varies what a caller may legitimately hand over: float64 / float32 coordinates,
+    Fortran-ordered, strided, negatively strided or read-only coordinate arrays (assigned after construction, as a
+    transform does), float32 / int32 columns, object / over-wide string columns, plain python lists"""
     from tme import Structure
-    kw = {ATTR[k]: np.array([a[k] for a in atoms], dtype=str) for k in STR_FIELDS}
-    kw["atom_serial_number"] = np.array([a["serial"] for a in atoms], dtype=int)
-    kw["residue_sequence_number"] = np.array([a["resSeq"] for a in atoms], dtype=int)
-    kw["atom_coordinate"] = np.array([[a["x"], a["y"], a["z"]] for a in atoms], dtype=np.float32).reshape(len(atoms), 3)
-    kw["occupancy"] = np.array([a["occ"] for a in atoms], dtype=float)
-    kw["temperature_factor"] = np.array([a["b"] for a in atoms], dtype=float)
-    return Structure(**kw, metadata=dict(metadata or {}))
+    form = form or {}
+    n = len(atoms)
+    sform, nform, iform, cform = form.get("str", "U"), form.get("num", "f64"), form.get("int", "i64"), form.get("coord", "f32")
+
+    def strs(k):
+        vals = [a[k] for a in atoms]
+        if sform == "list":
+            return vals
+        if sform == "object":
+            return np.array(vals, dtype=object)
+        if sform == "wideU":
+            return np.array(vals, dtype="<U12")
+        return np.array(vals, dtype=str)
+
+    def nums(k):
+        vals = [a[k] for a in atoms]
+        return vals if nform == "list" else np.array(vals, dtype=np.float32 if nform == "f32" else float)
+
+    def ints(k):
+        vals = [a[k] for a in atoms]
+        return vals if iform == "list" else np.array(vals, dtype=np.int32 if iform == "i32" else int)
+
+    kw = {ATTR[k]: strs(k) for k in STR_FIELDS}
+    kw["atom_serial_number"] = ints("serial")
+    kw["residue_sequence_number"] = ints("resSeq")
+    cdt = np.float64 if cform in ("f64", "list") else np.float32
+    base = np.array([[a["x"], a["y"], a["z"]] for a in atoms], dtype=cdt).reshape(n, 3)
+    kw["atom_coordinate"] = base.tolist() if cform == "list" else base
+    kw["occupancy"] = nums("occ")
+    kw["temperature_factor"] = nums("b")
+    s = Structure(**kw, metadata=dict(metadata or {}))
+    if cform == "F":
+        s.atom_coordinate = np.asfortranarray(base)
+    elif cform == "strided":
+        big = np.full((2 * n + 1, 7), 7777.0, dtype=cdt)
+        view = big[1::2, 1:7:2]
+        view[...] = base
+        s.atom_coordinate = view
+    elif cform == "reversed":
+        s.atom_coordinate = base[::-1, ::-1].copy()[::-1, ::-1]
+    elif cform == "readonly":
+        ro = base.copy()
+        ro.setflags(write=False)
+        s.atom_coordinate = ro
+    return s
 
 
 def to_model(atoms):
@@ -84,9 +149,9 @@ def to_model(atoms):
     for a in atoms:
         m = {k: a[k] for k in STR_FIELDS}
         m["serial"], m["resSeq"] = a["serial"], a["resSeq"]
-        # the real writer formats the float32 coordinate
+        # the real writer formats the stored coordinate (rows come from `struct_atoms`: exact stored values)
         for k in "xyz":
-            m[k] = dec(np.float32(a[k]), 3)
+            m[k] = dec(a[k], 3)
         m["occ"], m["b"] = dec(a["occ"], 2), dec(a["b"], 2)
         out.append(m)
     return out
@@ -133,12 +198,29 @@ class Real:
             return p, "err:Raised", type(e).__name__
         return p, open(p).read(), None
 
-    def read(self, p, **kw):
+    def write_to(self, s, p):
+        """write to a path chosen by the caller (fixed names, odd extensions); returns (text | 'err:Raised', exception name)"""
+        import warnings
+        try:
+            with warnings.catch_warnings():
+                warnings.simplefilter("ignore")
+                s.to_file(p)
+        except Exception as e:
+            return "err:Raised", type(e).__name__
+        return open(p).read(), None
+
+    def put(self, fmt, text):
+        p = self.path(fmt)
+        with open(p, "w") as f:
+            f.write(text)
+        return p
+
+    def read(self, p, *args, **kw):
         import contextlib
         import io
         try:
             with contextlib.redirect_stdout(io.StringIO()):
-                s = self.S.from_file(p, **kw)
+                s = self.S.from_file(p, *args, **kw)
             return s, struct_atoms(s)
         except Exception as e:
             return None, "err:Raised:" + type(e).__name__
@@ -162,7 +244,7 @@ def fits(a, fmts):
     ok &= all(clean(a[k]) for k in STR_FIELDS)
     ok &= 1 <= len(a["name"]) <= 4 and 1 <= len(a["resName"]) <= 3 and len(a["chain"]) == 1
     ok &= len(a["alt"]) <= 1 and len(a["ins"]) <= 1 and len(a["elem"]) <= 2 and len(a["charge"]) <= 2 and len(a["seg"]) <= 2
-    ok &= all(len(f"{np.float32(a[k]):.3f}") <= 8 for k in "xyz")
+    ok &= all(len(f"{a[k]:.3f}") <= 8 for k in "xyz")
     ok &= all(len(f"{a[k]:.2f}") <= 6 for k in ("occ", "b"))
     if "cif" in fmts:
         # tokens of a loop row: nothing the tokenizer treats specially at the start of a line
@@ -174,13 +256,21 @@ def classify(a_in, field, fmt_w, edited):
     """stable key of a failing class (component:condition)"""
     if fmt_w == "cif" and field == "name" and '"' in a_in["name"]:
         return "mmcif:double-quote-in-name"
-    if fmt_w == "cif" and edited and field in edited and field not in ("x", "y", "z"):
+    if fmt_w == "cif" and edited == "original-file-replaced" and field not in ("x", "y", "z"):
+        # the file the structure was read from has been overwritten with another structure (same ids) since
+        return "mmcif-rewrite:original-file-replaced"
+    if fmt_w == "cif" and isinstance(edited, tuple) and edited[0] == "defaulted":
+        # the reader replaced an unparsable column of the source file by its default (occupancy '?' -> all 0); the mmCIF
+        # writer copies that column from the source file again instead of writing what the structure holds
+        return "mmcif-rewrite:defaulted-field-restored" if field in edited[1] else f"{fmt_w}-roundtrip:{field}"
+    if fmt_w == "cif" and edited and edited != "original-file-replaced" and field in edited and field not in ("x", "y", "z"):
         return "mmcif-rewrite:edited-field-lost"
     return f"{fmt_w}-roundtrip:{field}"
 
 
 def spec_roundtrip(ctx, inp, a_in, a_out, fmt_w, fmt_r, edited=None):
-    """the round-trip clause of the property on the implementation's own output"""
+    """the round-trip clause of the property on the implementation's own output; `a_in` are the rows of the
+    structure that was written (`struct_atoms`: the values as stored, whatever their dtype)"""
     clause = "write/read preserves atoms"
     if isinstance(a_out, str):
         ctx.spec(clause, inp, False, {"outcome": a_out}, key=f"{fmt_w}-roundtrip:raised")
@@ -197,8 +287,7 @@ def spec_roundtrip(ctx, inp, a_in, a_out, fmt_w, fmt_r, edited=None):
             if u != v:
                 bad.setdefault(classify(p, f, fmt_w, edited), (i, f, p[f], q[f]))
         for f, tol in (("x", 1e-3), ("y", 1e-3), ("z", 1e-3), ("occ", 1e-2), ("b", 1e-2)):
-            ref = float(np.float32(p[f])) if f in "xyz" else p[f]
-            if not abs(ref - q[f]) <= tol * (1 + 1e-6) + 1e-9:
+            if not abs(p[f] - q[f]) <= tol * (1 + 1e-6) + 1e-9:
                 bad.setdefault(classify(p, f, fmt_w, edited), (i, f, p[f], q[f]))
     if not bad:
         ctx.spec(clause, inp, True)
@@ -226,9 +315,11 @@ def spec_cross(ctx, inp, a_pdb, a_cif, what):
 
 
 # ------------------------------------------------------------------ generators
-NAME_CH = list("ABCDEFGHNOPSXZ") + list("0123456789") + ["'", "'", "*"]
+NAME_CH = list("ABCDEFGHNOPSXZ") + list("0123456789") + ["'", "'", "*"] + list("aceh")   # case must survive
+# one-character fields may hold any printable character; these are the ones an mmCIF tokenizer could trip over
+SPECIAL_CH = list("#_;+*-'$&")
 ELEMS = ["C", "N", "O", "S", "P", "H", "FE", "ZN", "MG", "SE", "CA", "Cl", ""]
-RES = ["GLY", "ALA", "HIS", "HOH", "A", "DA", "U", "SO4", "MSE", "0AB"]
+RES = ["GLY", "ALA", "HIS", "HOH", "A", "DA", "U", "SO4", "MSE", "0AB", "Gly", "hoh", "Cl", "N'"]
 OPT = ["", ".", "?", "A", "B", "1"]
 CHARGE = ["", ".", "?", "1+", "2-", "-1", "1", "+"]
 
@@ -236,7 +327,9 @@ CHARGE = ["", ".", "?", "1+", "2-", "-1", "1", "+"]
 def gen_coord(rng, cif_only=False):
     r = rng.random()
     if r < 0.15:
-        return float(rng.choice([0.0, -0.0004, 0.0005, 9999.999, -999.999, 999.9995, -0.0005, 1234.5675, 0.001, -999.9994]))
+        # incl. exact binary ties of the third decimal (k/16: the formatter rounds them half-to-even)
+        return float(rng.choice([0.0, -0.0004, 0.0005, 9999.999, -999.999, 999.9995, -0.0005, 1234.5675, 0.001, -999.9994,
+                                 0.0625, -0.1875, 1234.5625, 2.5, 0.3125, -17.4375, 8191.9375, 4095.0005]))
     if cif_only and r < 0.35:
         return float(-rng.uniform(1000, 9999.999))
     scale = float(rng.choice([1, 10, 100, 1000]))
@@ -269,6 +362,17 @@ def gen_atoms(rng, n, mode="wf", cif_only=False):
         serials[int(rng.integers(0, n))] = int(rng.choice([0, -1, -9999, 99999]))
     if not seq and n > 1 and rng.random() < 0.3:
         serials = [int(x) for x in rng.permutation(n) + 1]
+    if not seq and n > 1 and rng.random() < 0.2:
+        # serial numbers need not be distinct (all 0 in built models, repeated after merging files)
+        k = int(rng.integers(0, 4))
+        if k == 0:
+            serials = [0] * n
+        elif k == 1:
+            serials = [int(rng.integers(1, n + 1))] * n
+        elif k == 2:
+            serials = [i // 2 + 1 for i in range(n)]
+        else:
+            serials[int(rng.integers(1, n))] = serials[0]
     atoms = []
     for i in range(n):
         if mode == "dense":
@@ -290,6 +394,8 @@ def gen_atoms(rng, n, mode="wf", cif_only=False):
                  "x": gen_coord(rng, cif_only), "y": gen_coord(rng, cif_only), "z": gen_coord(rng, cif_only),
                  "occ": float(rng.choice([1.0, 0.5, 0.0, round(float(rng.uniform(0, 1)), 2), float(rng.uniform(0, 1)), 999.99, -99.99])),
                  "b": float(rng.choice([0.0, round(float(rng.uniform(0, 200)), 2), float(rng.uniform(0, 999.99)), 999.99, -1.5]))}
+            if mode != "malformed" and rng.random() < 0.12:
+                a[str(rng.choice(["chain", "alt", "ins"]))] = str(rng.choice(SPECIAL_CH))
             if mode == "pdbread":
                 a["alt"] = a["ins"] = a["charge"] = a["seg"] = ""
         if mode != "dense":
@@ -327,13 +433,15 @@ def gen_atoms(rng, n, mode="wf", cif_only=False):
 
 
 # ------------------------------------------------------------------ one conversion chain
-def run_chain(ctx, real, atoms, path, d=None, spec=True, label="gen", edit=None, tag=None):
+def run_chain(ctx, real, atoms, path, d=None, spec=True, label="gen", edit=None, tag=None, form=None, orig_gone=False):
     """atoms --write path[0]--> file --read--> atoms1 --write path[1]--> ...
     Correspondence on every file text and every table read back; property clauses on the real outputs.
-    edit = (step, field, values): overwrite a field of the structure read at `step` before writing it again."""
-    inp0 = {"atoms": atoms, "path": list(path), "edit": edit, "kind": label}
-    s = make_struct(atoms)
-    cur_atoms = atoms
+    edit = (step, field, values): overwrite a field of the structure read at `step` before writing it again.
+    form: how the arrays are handed to `Structure` (make_struct).  orig_gone: the file a structure was read from is
+    deleted before the structure is written again (temporary files): nothing of it can be re-used."""
+    inp0 = {"atoms": atoms, "path": list(path), "edit": edit, "kind": label, "form": form, "orig_gone": orig_gone}
+    s = make_struct(atoms, form=form)
+    cur_atoms = struct_atoms(s)      # the values as stored (float32 or float64 coordinates ...)
     orig_text = None
     ok_all = True
     for step, fmt in enumerate(path):
@@ -384,6 +492,9 @@ def run_chain(ctx, real, atoms, path, d=None, spec=True, label="gen", edit=None,
             break
         s, cur_atoms = s2, a2
         orig_text = text
+        if orig_gone:
+            os.remove(p)
+            orig_text = None
     if tag is not None:
         ctx.distinct(tag)
     return ok_all
@@ -462,7 +573,30 @@ def extract_obligations(ctx, real):
     _, text, _ = real.write(s, "cif")
     names = re.findall(r"(?m)^_atom_site\.(\S+)\s*$", text if isinstance(text, str) else "")
     ctx.obligation("mmcif-column-names", names == cols["cifNames"], {"source": names, "model": cols["cifNames"]})
-    ctx.extra["extracted_tables"] = {"pdb_writer": writer, "pdb_reader": reader, "mmcif_names": names}
+    # the column names the mmCIF reader asks for (theorems loadCifTable_congr / _perm / _extra are about this list)
+    try:
+        read_names = extract_cif_read_names()
+    except Exception as e:
+        read_names = repr(e)
+    ctx.obligation("mmcif-reader-column-names", read_names == cols.get("cifReadNames"), {"source": read_names, "model": cols.get("cifReadNames")})
+    ctx.extra["extracted_tables"] = {"pdb_writer": writer, "pdb_reader": reader, "mmcif_names": names, "mmcif_read_names": read_names}
+
+
+def extract_cif_read_names():
+    """from the source of `Structure._load_mmcif`: the `Cartn_*` subscripts and the file-side names of `atom_site_mapping`"""
+    import ast
+    import inspect
+    import textwrap
+    from tme import Structure
+    tree = ast.parse(textwrap.dedent(inspect.getsource(Structure._load_mmcif)))
+    mapped = []
+    for node in ast.walk(tree):
+        if (isinstance(node, ast.Assign) and isinstance(node.value, ast.Dict)
+                and any(isinstance(t, ast.Name) and t.id == "atom_site_mapping" for t in node.targets)):
+            mapped = [v.elts[0].value for v in node.value.values]
+    coords = sorted({n.slice.value for n in ast.walk(tree) if isinstance(n, ast.Subscript) and isinstance(n.slice, ast.Constant)
+                     and isinstance(n.slice.value, str) and n.slice.value.startswith("Cartn_")})
+    return coords + mapped
 
 
 # ------------------------------------------------------------------ main
@@ -470,7 +604,7 @@ def bundled(name):
     return os.path.join(env.REPO, "tests", "data", "Structures", name)
 
 
-def check_filters(ctx, real, d, path, text, rng, nsets, label):
+def check_filters(ctx, real, d, path, text, rng, nsets, label, defaulted=None):
     """element / residue / record filters keep exactly the matching atoms (in order)"""
     fmt = "pdb" if path.lower().endswith(".pdb") else "cif"
     _, full = real.read(path, keep_non_atom_records=True)
@@ -498,11 +632,23 @@ def check_filters(ctx, real, d, path, text, rng, nsets, label):
             es, rs = {near_e[int(rng.integers(len(near_e)))]}, set()
         if j == 2 and near_r:
             es, rs = set(), {near_r[int(rng.integers(len(near_r)))], ress[int(rng.integers(len(ress)))]}
+        if j == 3:
+            # many names (present ones, all but one, and decoys): more names than atoms in small files
+            es, rs = (set(elems[:-1]) | set(near_e) | {"XX", "Q"}), set()
+        if j == 4:
+            es, rs = set(), (set(ress[1:]) | set(near_r) | {"ZZZ"})
         if j == 0:
             keep, es, rs = False, set(), set()
+        # the sets as set / frozenset, by keyword or by position
+        wrap = [set, frozenset][j % 2]
+        positional = j % 3 == 2
         inp = {"file": os.path.basename(path) if label == "bundled" else text, "keep_non_atom_records": keep,
-               "filter_by_elements": sorted(es), "filter_by_residues": sorted(rs)}
-        _, got = real.read(path, keep_non_atom_records=keep, filter_by_elements=es or None, filter_by_residues=rs or None)
+               "filter_by_elements": sorted(es), "filter_by_residues": sorted(rs), "as": wrap.__name__, "positional": positional}
+        if positional:
+            s_got, got = real.read(path, keep, wrap(es) if es else None, wrap(rs) if rs else None)
+        else:
+            s_got, got = real.read(path, keep_non_atom_records=keep, filter_by_elements=wrap(es) if es else None,
+                                   filter_by_residues=wrap(rs) if rs else None)
         if isinstance(m_full, list):
             m = d.call("c09.filter", atoms=m_full, keepNonAtom=keep, elems=sorted(es), resNames=sorted(rs))
             ctx.agree("from_file filters", inp, "err:Raised" if isinstance(got, str) else canon_read(got, m), m)
@@ -519,6 +665,259 @@ def check_filters(ctx, real, d, path, text, rng, nsets, label):
         ctx.count(f"filter:{label}:" + ("none" if not es and not rs else "elem" if not rs else "res" if not es else "both"))
         if want and len(want) < len(full):
             ctx.distinct(("filter", os.path.basename(path) if label == "bundled" else hash(text), keep, tuple(sorted(es)), tuple(sorted(rs))))
+        # a filtered structure is a structure: written and read back it keeps its atoms (for an mmCIF source the
+        # writer re-uses the records of the original file: those of the selected atoms, not the first ones)
+        if j == nsets - 1 and not isinstance(got, str) and got and ok:
+            for out in ("cif", "pdb"):
+                if not all(fits(a, {out}) for a in got):
+                    continue
+                p_out, t_out, _ = real.write(s_got, out)
+                if out == "cif" and label != "bundled":
+                    mt = d.call("c09.writeCif", atoms=to_model(got), orig=text)
+                    ctx.agree("_write_mmcif atom_site text (filtered structure)", dict(inp, write=out), atom_site_block(t_out), mt)
+                _, back = real.read(p_out, keep_non_atom_records=True)
+                spec_roundtrip(ctx, dict(inp, write=out, kind="filtered-then-written"), got, back, out, out,
+                               edited=("defaulted", defaulted) if defaulted and fmt == "cif" else None)
+                ctx.count(f"filter:{label}:filtered-then-written:{fmt}->{out}")
+    # nothing of the filters sticks: a plain read afterwards returns every atom again
+    _, again = real.read(path, keep_non_atom_records=True)
+    ctx.spec("filters keep exactly the matching atoms", {"file": os.path.basename(path) if label == "bundled" else text,
+                                                         "keep_non_atom_records": True, "after_filtered_reads": True},
+             again == full, None if again == full else {"kept": len(again) if not isinstance(again, str) else again, "expected": len(full)},
+             key="filter:none-after-filtered-reads")
+
+
+# ------------------------------------------------------------------ file names
+NAME_VARIANTS = [("a.PDB", "pdb"), ("a.Pdb", "pdb"), ("b.CIF", "cif"), ("b.Cif", "cif"), ("a.b.pdb", "pdb"),
+                 ("a.pdb.cif", "cif"), ("a.cif.pdb", "pdb"), ("dir.cif/m.pdb", "pdb"), ("dir.pdb/m.x.CIF", "cif"),
+                 ("with space.pdb", "pdb"), ("UPPER/NAME.CIF", "cif"), ("pdb", None), ("model.ent", None)]
+
+
+def check_file_name(ctx, real, d, atoms, name, fmt, form=None, label="file-name"):
+    """the format is chosen by the (case-insensitive) last extension of the file name, for writing and for reading"""
+    inp = {"kind": "file-name", "atoms": atoms, "name": name, "fmt": fmt, "form": form}
+    p = os.path.join(real.dir, "names", name)
+    os.makedirs(os.path.dirname(p), exist_ok=True)
+    s = make_struct(atoms, form=form)
+    rows = struct_atoms(s)
+    text, exc = real.write_to(s, p)
+    if fmt is None:
+        # no supported extension: refused, and nothing is written under another format's rules
+        ctx.agree("to_file refuses an unsupported extension", inp, (text, exc), ("err:Raised", "NotImplementedError"))
+        ctx.count(f"{label}:unsupported-extension")
+        return
+    if d is not None:
+        mt = d.call("c09.writePdb" if fmt == "pdb" else "c09.writeCif", atoms=to_model(rows))
+        if mt != "err:Unrepresentable":
+            ctx.agree("to_file format by extension", inp, text, mt)
+    if text == "err:Raised":
+        ctx.spec("write/read preserves atoms", inp, False, {"outcome": "writer raised " + str(exc)}, key=f"{fmt}-roundtrip:raised")
+        return
+    _, back = real.read(p, keep_non_atom_records=True)
+    spec_roundtrip(ctx, inp, rows, back, fmt, fmt)
+    ctx.count(f"{label}:{fmt}:" + ("upper-case-extension" if name != name.lower() else "dotted-name"))
+    ctx.distinct(("file-name", name, len(atoms)))
+
+
+# ------------------------------------------------------------------ the original file changes after reading
+def check_original_changed(ctx, real, d, atoms_a, atoms_b, mode, out_fmt, label="orig-changed"):
+    """a structure read from an mmCIF file keeps the path in its metadata and `_write_mmcif` looks at that file again.
+    mode: 'deleted' (temporary file removed), 'replaced' (the path now holds another structure with the same ids),
+    'replaced-other' (another structure, whatever ids it has), 'emptied'.  What is written must be the structure."""
+    inp = {"kind": "orig-changed", "atoms": atoms_a, "other": atoms_b, "mode": mode, "write": out_fmt}
+    real.n += 1
+    p = os.path.join(real.dir, f"orig_{real.n}.cif")
+    text_a, exc = real.write_to(make_struct(atoms_a), p)
+    s1, a1 = real.read(p, keep_non_atom_records=True)
+    if isinstance(a1, str) or text_a == "err:Raised":
+        ctx.spec("write/read preserves atoms", inp, False, {"outcome": a1, "writer": exc}, key="cif-roundtrip:raised")
+        return
+    if mode == "deleted":
+        os.remove(p)
+        orig_text = None
+    elif mode == "emptied":
+        open(p, "w").close()
+        orig_text = ""
+    else:
+        orig_text, _ = real.write_to(make_struct(atoms_b), p)
+    q, text, exc = real.write(s1, out_fmt)
+    if isinstance(text, str) and text.startswith("err:"):
+        ctx.spec("write/read preserves atoms", inp, False, {"outcome": "writer raised " + str(exc)}, key=f"{out_fmt}-roundtrip:raised")
+        return
+    if d is not None:
+        if out_fmt == "cif":
+            mt = d.call("c09.writeCif", atoms=to_model(a1), orig=orig_text)
+            ctx.agree("_write_mmcif atom_site text (original file changed)", inp, atom_site_block(text) if orig_text else text, mt)
+        else:
+            mt = d.call("c09.writePdb", atoms=to_model(a1))
+            if mt != "err:Unrepresentable":
+                ctx.agree("_write_pdb text", inp, text, mt)
+    _, back = real.read(q, keep_non_atom_records=True)
+    spec_roundtrip(ctx, inp, a1, back, out_fmt, out_fmt, edited="original-file-replaced" if mode in ("replaced", "replaced-other") else None)
+    ctx.count(f"{label}:{mode}:->{out_fmt}")
+    ctx.distinct(("orig-changed", mode, out_fmt, len(atoms_a), atoms_a[0]["name"]))
+
+
+# ------------------------------------------------------------------ entries as the archive distributes them
+CIF_STD = ["group_PDB", "id", "type_symbol", "label_atom_id", "label_alt_id", "label_comp_id", "label_asym_id",
+           "label_entity_id", "label_seq_id", "pdbx_PDB_ins_code", "Cartn_x", "Cartn_y", "Cartn_z", "occupancy",
+           "B_iso_or_equiv", "pdbx_formal_charge", "auth_seq_id", "auth_comp_id", "auth_asym_id", "auth_atom_id",
+           "pdbx_PDB_model_num"]
+CIF_OPTIONAL = ["label_entity_id", "pdbx_formal_charge", "auth_seq_id", "auth_comp_id", "auth_asym_id", "auth_atom_id",
+                "pdbx_PDB_ins_code", "label_alt_id"]
+CIF_EXTRA = ["Cartn_x_esd", "occupancy_esd", "calc_flag", "footnote_id"]
+
+
+def _cif_tok(v):
+    """a value as archive files spell it: no value = '.' / '?', a prime needs double quotes"""
+    if v == "":
+        return "?"
+    return f'"{v}"' if "'" in v else v
+
+
+def gen_foreign(rng, n):
+    """one entry in both archive formats, as other programs write them (not pyTME's own layout):
+    PDB - HEADER / REMARK / CRYST1 / ANISOU / TER / CONECT / MASTER records around the atoms, names aligned by the
+    element rule (column 14 for one-letter elements), right-justified residue names and elements, TER records
+    consuming serial numbers, optionally right-trimmed lines;
+    mmCIF - data_ header, key-value categories, a text field between semicolons, other loops before and after
+    atom_site, atom_site columns in the archive's order (optionally permuted, optional ones missing, extra ones
+    present), primed names in double quotes, '.' / '?' for no value, label_seq_id '.' for HETATM, optionally rows
+    broken over two lines, aligned or single-blank separated.
+    Returns (rows the files state [fields of the cross-format clause], pdb text, cif text, description)."""
+    atoms = gen_atoms(rng, n, "wf")
+    hetero_from = n if rng.random() < 0.4 else int(rng.integers(1, n + 1))
+    for i, a in enumerate(atoms):
+        for k in ("chain", "alt", "ins"):          # legal unquoted tokens only (a leading # _ ; $ means something in CIF)
+            if a[k] in SPECIAL_CH:
+                a[k] = "A"
+        a["alt"], a["ins"], a["charge"] = noval(a["alt"]), noval(a["ins"]), noval(a["charge"])
+        if a["charge"] not in ("", "1+", "2-"):
+            a["charge"] = ""
+        a["record"] = "ATOM" if i < hetero_from else "HETATM"
+        a["resSeq"] = max(a["resSeq"], -99) if a["resSeq"] < 0 else a["resSeq"]
+        for k in "xyz":
+            a[k] = float(f"{np.float32(a[k]):.3f}")
+        a["occ"], a["b"] = float(f"{a['occ']:.2f}"), float(f"{a['b']:.2f}")
+        a["seg"] = ""
+    desc = {"trim": bool(rng.random() < 0.4), "permute": bool(rng.random() < 0.3), "broken_rows": bool(rng.random() < 0.3),
+            "aligned": bool(rng.random() < 0.6), "n": n, "hetero_from": hetero_from,
+            # occupancy / B-factor left blank ('?' in mmCIF) for one atom or for all: both readers then set the whole
+            # column to 0 ("field typing and defaults")
+            "no_occ": [None, None, None, None, None, "one", "all"][int(rng.integers(0, 7))],
+            "drop": [str(x) for x in CIF_OPTIONAL if rng.random() < 0.25],
+            "extra": [str(x) for x in CIF_EXTRA if rng.random() < 0.3]}
+    # ---- PDB
+    L = ["HEADER    TEST ENTRY                              01-JAN-00   XXXX",
+         "TITLE     GENERATED ENTRY",
+         "REMARK   2 RESOLUTION.    3.20 ANGSTROMS.",
+         "REMARK   3   NUMBER OF NON-HYDROGEN ATOMS USED IN REFINEMENT.",
+         "REMARK   3   PROTEIN ATOMS            : %d" % n,
+         "CRYST1  100.000  100.000  100.000  90.00  90.00  90.00 P 1           1"]
+    serial = 0
+    blank = set(range(n)) if desc["no_occ"] == "all" else {int(rng.integers(0, n))} if desc["no_occ"] == "one" else set()
+    for i, a in enumerate(atoms):
+        serial += 1
+        a["serial_pdb"] = serial
+        name = a["name"]
+        name4 = name if (len(name) == 4 or len(a["elem"]) == 2) else " " + name
+        line = (f"{a['record']:<6}{serial:>5} {name4:<4}{a['alt'] or ' '}{a['resName']:>3} {a['chain']}{a['resSeq']:>4}"
+                f"{a['ins'] or ' '}   {a['x']:8.3f}{a['y']:8.3f}{a['z']:8.3f}"
+                + (" " * 12 if i in blank else f"{a['occ']:6.2f}{a['b']:6.2f}") + f"          {a['elem']:>2}{a['charge']:>2}")
+        assert len(line) == 80
+        L.append(line.rstrip() if desc["trim"] else line)
+        if rng.random() < 0.3:
+            L.append(f"ANISOU{serial:>5} {name4:<4}{a['alt'] or ' '}{a['resName']:>3} {a['chain']}{a['resSeq']:>4}{a['ins'] or ' '} "
+                     f"   2406   1892   1614    198    519   -328      {a['elem']:>2}{a['charge']:>2}")
+        if i == hetero_from - 1 or (i < n - 1 and rng.random() < 0.15):
+            serial += 1
+            L.append(f"TER   {serial:>5}      {a['resName']:>3} {a['chain']}{a['resSeq']:>4}{a['ins'] or ' '}")
+    L += ["CONECT    1    2", "MASTER        0    0    0    0    0    0    0    6 %4d    1    0    0" % n, "END"]
+    pdb_text = "\n".join(L) + "\n"
+    # ---- mmCIF
+    cols = [c for c in CIF_STD if c not in desc["drop"]]
+    for e in desc["extra"]:
+        cols.insert(int(rng.integers(0, len(cols) + 1)), e)
+    if desc["permute"]:
+        cols = [cols[int(k)] for k in rng.permutation(len(cols))]
+    rows = []
+    for i, a in enumerate(atoms):
+        het = a["record"] == "HETATM"
+        v = {"group_PDB": a["record"], "id": str(i + 1), "type_symbol": _cif_tok(a["elem"]), "label_atom_id": _cif_tok(a["name"]),
+             "label_alt_id": a["alt"] or ".", "label_comp_id": _cif_tok(a["resName"]), "label_asym_id": a["chain"],
+             "label_entity_id": "1", "label_seq_id": "." if het else str(a["resSeq"]), "pdbx_PDB_ins_code": a["ins"] or "?",
+             "Cartn_x": f"{a['x']:.3f}", "Cartn_y": f"{a['y']:.3f}", "Cartn_z": f"{a['z']:.3f}", "occupancy": "?" if i in blank else f"{a['occ']:.2f}",
+             "B_iso_or_equiv": "?" if i in blank else f"{a['b']:.2f}", "pdbx_formal_charge": a["charge"] or "?", "auth_seq_id": str(a["resSeq"]),
+             "auth_comp_id": _cif_tok(a["resName"]), "auth_asym_id": a["chain"], "auth_atom_id": _cif_tok(a["name"]),
+             "pdbx_PDB_model_num": "1", "Cartn_x_esd": "?", "occupancy_esd": "?", "calc_flag": ".", "footnote_id": "?"}
+        rows.append([v[c] for c in cols])
+    width = [max(len(r[j]) for r in rows) for j in range(len(cols))]
+    body = []
+    for r in rows:
+        toks = [t.ljust(width[j]) for j, t in enumerate(r)] if desc["aligned"] else list(r)
+        if desc["broken_rows"] and len(toks) > 2 and rng.random() < 0.7:
+            k = int(rng.integers(1, len(toks)))
+            body += [" ".join(toks[:k]).rstrip() + " ", " ".join(toks[k:]) + " "]
+        else:
+            body.append(" ".join(toks) + " ")
+    C = ["data_XXXX", "# ", "_entry.id   XXXX ", "# ", "_cell.entry_id           XXXX ", "_cell.length_a           100.000 ",
+         "_cell.angle_alpha        90.00 ", "# ", "loop_", "_audit_author.name ", "_audit_author.pdbx_ordinal ",
+         "'Doe, J.'  1 ", "'Roe, R.'  2 ", "# ", "_struct.entry_id   XXXX ", "_struct.title ",
+         ";A generated entry", "with a title over two lines", ";", "# ", "loop_", "_atom_type.symbol ", "C ", "N ", "O ", "# ",
+         "loop_"] + [f"_atom_site.{c} " for c in cols] + body + \
+        ["# ", "loop_", "_pdbx_poly_seq_scheme.asym_id ", "_pdbx_poly_seq_scheme.seq_id ", "A 1 ", "A 2 ", "# "]
+    cif_text = "\n".join(C) + "\n"
+    stated = [{k: a[k] for k in ("name", "resName", "elem", "x", "y", "z", "occ", "b")} for a in atoms]
+    if blank:
+        for r in stated:
+            r["occ"] = r["b"] = 0.0
+    return stated, pdb_text, cif_text, desc
+
+
+def check_foreign(ctx, real, d, stated, pdb_text, cif_text, desc=None, label="foreign"):
+    """the same entry read from its PDB and its mmCIF file (files not written by pyTME) yields the same atoms; the
+    structures read from them round-trip through both writers (the mmCIF one re-uses the foreign file)"""
+    inp = {"kind": "foreign", "pdb": pdb_text, "cif": cif_text, "stated": stated, "layout": desc}
+    p_pdb, p_cif = real.put("pdb", pdb_text), real.put("cif", cif_text)
+    s_p, a_p = real.read(p_pdb, keep_non_atom_records=True)
+    s_c, a_c = real.read(p_cif, keep_non_atom_records=True)
+    if d is not None:
+        for fmt, a, text in (("pdb", a_p, pdb_text), ("cif", a_c, cif_text)):
+            m = d.call("c09.loadPdb" if fmt == "pdb" else "c09.loadCif", text=text)
+            ctx.agree("archive-style " + ("_load_pdb table" if fmt == "pdb" else "_load_mmcif table"), dict(inp, read=fmt),
+                      "err:Raised" if isinstance(a, str) else canon_read(a, m), m)
+    spec_cross(ctx, inp, a_p, a_c, "foreign")
+    if stated is not None:
+        spec_cross(ctx, dict(inp, against="the atoms the PDB file states"), a_p, stated, "foreign")
+        spec_cross(ctx, dict(inp, against="the atoms the mmCIF file states"), stated, a_c, "foreign")
+    for src, s, a, text in (("pdb", s_p, a_p, pdb_text), ("cif", s_c, a_c, cif_text)):
+        if isinstance(a, str) or not a:
+            continue
+        for out in ("pdb", "cif"):
+            if not all(fits(x, {out}) for x in a):
+                ctx.count(f"{label}:outside-quantifier(agree-only)")
+                continue
+            sub = dict(inp, read=src, write=out)
+            q, t_out, exc = real.write(s, out)
+            if isinstance(t_out, str) and t_out.startswith("err:"):
+                ctx.spec("write/read preserves atoms", sub, False, {"outcome": "writer raised " + str(exc)}, key=f"{out}-roundtrip:raised")
+                continue
+            if d is not None:
+                if out == "pdb":
+                    mt = d.call("c09.writePdb", atoms=to_model(a))
+                    if mt != "err:Unrepresentable":
+                        ctx.agree("_write_pdb text", sub, t_out, mt)
+                else:
+                    mt = d.call("c09.writeCif", atoms=to_model(a), orig=text)
+                    ctx.agree("_write_mmcif atom_site text (archive-style original)", sub, atom_site_block(t_out), mt)
+            _, back = real.read(q, keep_non_atom_records=True)
+            spec_roundtrip(ctx, sub, a, back, out, out)
+            ctx.count(f"{label}:{src}->{out}")
+    if desc:
+        for k in ("trim", "permute", "broken_rows", "aligned", "no_occ"):
+            ctx.count(f"{label}:{k}={desc[k]}")
+        ctx.distinct(("foreign", desc["n"], desc["hetero_from"], desc["permute"], desc["broken_rows"], tuple(desc["drop"]), stated[0]["name"]))
+    return p_pdb, p_cif
 
 
 def run(ctx, search_mode=False):
@@ -548,27 +947,75 @@ def run(ctx, search_mode=False):
             else:
                 ctx.agree("_split_line", {"line": s}, MMCIFParser._split_line(s), m)
 
-    # ---- the same file name written again with another structure: what is read back is what was written last
+    # ---- the same file name written again with another structure: what is read back is what was written last.
+    # write 0: a structure; write 1: the same atoms in reverse order (a file of exactly the same size and name);
+    # write 2, 3: other structures.  What was read back is written once more under a second fixed name and read
+    # (the mmCIF writer looks at the file the structure came from, which keeps changing under the same name).
     for rep in range(ctx.budget(2, 10)):
         for fmt in ("pdb", "cif"):
             fixed = os.path.join(real.dir, f"model_{rep}.{fmt}")
-            for k in range(3):
-                atoms = [a for a in gen_atoms(rng, int(rng.choice([2, 5, 9])), "wf") if fits(a, {fmt})]
+            base = []
+            for k in range(4):
+                if k == 1 and len(base) > 1:
+                    atoms = [dict(a) for a in reversed(base)]
+                else:
+                    atoms = [a for a in gen_atoms(rng, int(rng.choice([2, 5, 9])), "wf") if fits(a, {"pdb", "cif"})]
+                if k == 0:
+                    base = atoms
                 if not atoms:
                     continue
                 s_ = make_struct(atoms)
-                try:
-                    import warnings
-                    with warnings.catch_warnings():
-                        warnings.simplefilter("ignore")
-                        s_.to_file(fixed)
-                except Exception as e:  # noqa
-                    ctx.spec("write/read preserves atoms", {"same_path": True, "write": fmt, "atoms": atoms}, False, type(e).__name__, key=f"{fmt}-roundtrip:raised")
+                inp = {"same_path_rewritten": k, "write": fmt, "atoms": atoms, "kind": "same-path"}
+                text, exc = real.write_to(s_, fixed)
+                if text == "err:Raised":
+                    ctx.spec("write/read preserves atoms", inp, False, exc, key=f"{fmt}-roundtrip:raised")
                     continue
-                _, back = real.read(fixed, keep_non_atom_records=True)
-                spec_roundtrip(ctx, {"same_path_rewritten": k, "write": fmt, "atoms": atoms}, struct_atoms(s_), back, fmt, fmt)
+                s_back, back = real.read(fixed, keep_non_atom_records=True)
+                spec_roundtrip(ctx, inp, struct_atoms(s_), back, fmt, fmt)
                 ctx.count("same-path-rewritten:" + fmt)
                 ctx.distinct(("rewrite", rep, fmt, k))
+                if isinstance(back, str) or not back:
+                    continue
+                fmt2 = ("cif", "pdb")[(rep + k) % 2]
+                copy = os.path.join(real.dir, f"copy_{rep}.{fmt2}")
+                text2, exc = real.write_to(s_back, copy)
+                if text2 == "err:Raised":
+                    ctx.spec("write/read preserves atoms", dict(inp, then=fmt2), False, exc, key=f"{fmt2}-roundtrip:raised")
+                    continue
+                if not search_mode and fmt2 == "cif":
+                    mt = d.call("c09.writeCif", atoms=to_model(back), orig=text)
+                    ctx.agree("_write_mmcif atom_site text (fixed file names)", dict(inp, then=fmt2), atom_site_block(text2), mt)
+                _, back2 = real.read(copy, keep_non_atom_records=True)
+                spec_roundtrip(ctx, dict(inp, then=fmt2), back, back2, fmt2, fmt2)
+                ctx.count(f"same-path-rewritten:{fmt}->copy.{fmt2}")
+
+    # ---- file names: extension in any case, dots elsewhere in the name / directory, unsupported extensions
+    for rep in range(ctx.budget(1, 4)):
+        for j, (name, fmt) in enumerate(NAME_VARIANTS):
+            atoms = [a for a in gen_atoms(rng, int(rng.choice([1, 3, 6])), "wf") if fits(a, {"pdb", "cif"})]
+            if atoms:
+                check_file_name(ctx, real, None if search_mode else d, atoms, name, fmt, form=gen_form(rng) if j % 2 else None)
+
+    # ---- the file a structure was read from is deleted / emptied / replaced before the structure is written again
+    for i in range(ctx.budget(16, 80)):
+        n = int(rng.choice([1, 2, 4, 7]))
+        mode = ["deleted", "replaced", "replaced-other", "emptied"][i % 4]
+        atoms_a, atoms_b = gen_atoms(rng, n, "wf"), gen_atoms(rng, n if i % 3 else n + 1, "wf")
+        if mode == "replaced" or i % 2:
+            for k, a in enumerate(atoms_a):
+                a["serial"] = k + 1
+            for k, a in enumerate(atoms_b):
+                a["serial"] = k + 1
+        if all(fits(a, {"pdb", "cif"}) for a in atoms_a + atoms_b):
+            check_original_changed(ctx, real, None if search_mode else d, atoms_a, atoms_b, mode, "cif" if i % 5 else "pdb")
+
+    # ---- entries in the archive's own layouts (files not written by pyTME), both formats of the same entry
+    for i in range(ctx.budget(24, 150)):
+        stated, pdb_text, cif_text, desc = gen_foreign(rng, int(rng.choice([1, 2, 4, 9, 17])))
+        p_pdb, p_cif = check_foreign(ctx, real, None if search_mode else d, stated, pdb_text, cif_text, desc)
+        if i % 5 == 0 and not search_mode:
+            check_filters(ctx, real, d, p_cif if i % 2 else p_pdb, cif_text if i % 2 else pdb_text, rng, 3, "foreign",
+                          defaulted=("occ", "b") if desc["no_occ"] == "one" else None)
 
     # ---- generated structures through every writer x reader chain
     n_struct = ctx.budget(150, 900)
@@ -580,7 +1027,8 @@ def run(ctx, search_mode=False):
         atoms = gen_atoms(rng, n, mode)
         ctx.count(f"gen:mode={mode}")
         ctx.count(f"gen:natoms={n}")
-        ctx.count("gen:serials=" + ("1..n" if [a["serial"] for a in atoms] == list(range(1, n + 1)) else "other"))
+        ctx.count("gen:serials=" + ("1..n" if [a["serial"] for a in atoms] == list(range(1, n + 1)) else
+                                    "duplicated" if len({a["serial"] for a in atoms}) < n else "other"))
         if any("'" in a["name"] for a in atoms):
             ctx.count("gen:has-primed-name")
         if any(a["alt"] == "" or a["ins"] == "" or a["charge"] == "" for a in atoms):
@@ -588,21 +1036,27 @@ def run(ctx, search_mode=False):
         if any(a["resSeq"] < 0 for a in atoms):
             ctx.count("gen:has-negative-resseq")
         trivial = n == 1 and mode == "wf" and atoms[0]["alt"] == atoms[0]["ins"] == ""
+        # every third structure: other dtypes / memory layouts / python lists handed to Structure; every seventh:
+        # the file read is removed before the structure is written again
+        form = gen_form(rng) if i % 3 == 1 else None
+        if form:
+            for k, v in form.items():
+                ctx.count(f"gen:form:{k}={v}")
         for path in paths2 + [paths3[i % len(paths3)]]:
             run_chain(ctx, real, atoms, path, d=None if search_mode else d, spec=mode != "malformed", label="gen",
-                      tag=None if (trivial or mode == "malformed") else ("chain", i, path))
+                      tag=None if (trivial or mode == "malformed") else ("chain", i, path), form=form, orig_gone=i % 7 == 3)
         # same entry written in both formats
         if mode != "malformed" and all(fits(a, {"pdb", "cif"}) for a in atoms):
-            s = make_struct(atoms)
+            s = make_struct(atoms, form=form)
             p1, t1, _ = real.write(s, "pdb")
             p2, t2, _ = real.write(s, "cif")
             _, a1 = real.read(p1, keep_non_atom_records=True)
             _, a2 = real.read(p2, keep_non_atom_records=True)
-            spec_cross(ctx, {"atoms": atoms, "kind": "cross"}, a1, a2, "generated")
+            spec_cross(ctx, {"atoms": atoms, "kind": "cross", "form": form}, a1, a2, "generated")
             if not trivial:
                 ctx.distinct(("cross", i))
             if i % 5 == 0 and not search_mode:
-                check_filters(ctx, real, d, p1 if i % 2 else p2, t1 if i % 2 else t2, rng, 3, "gen")
+                check_filters(ctx, real, d, p1 if i % 2 else p2, t1 if i % 2 else t2, rng, 5, "gen")
         if i < 3:
             ctx.sample({"atoms": atoms[:2], "n_atoms": n, "mode": mode, "paths": [list(p) for p in paths2]})
 
@@ -651,6 +1105,20 @@ def run(ctx, search_mode=False):
                 atoms.append(a)
             run_chain(ctx, real, atoms, path, d=d, label="large", tag=("large", nbig, path))
             ctx.count(f"large:natoms={nbig}:{'->'.join(path)}")
+
+    # ---- more than 10 000 atoms through both formats on the real code only (the model is quadratic in the rows)
+    if not search_mode:
+        nbig = ctx.budget(10240, 30000)
+        big = gen_atoms(rng, 40, "wf")
+        atoms = []
+        for k in range(nbig):
+            a = dict(big[k % 40])
+            a["serial"] = k + 1
+            a["resSeq"] = (k // 8) % 10000
+            a["y"] = ((k * 53) % 19999) / 2.0 - 999.0
+            atoms.append(a)
+        if all(fits(a, {"pdb", "cif"}) for a in atoms):
+            run_chain(ctx, real, atoms, ("cif", "cif", "pdb"), d=None, label="large-real-only", tag=("large-real-only", nbig))
 
     # ---- bundled entries
     if not search_mode or True:
@@ -714,11 +1182,21 @@ def replay(ctx, rec):
     """re-evaluate a recorded failing input against the real code (and the model)"""
     real = Real()
     inp = rec.get("input", {})
-    if "atoms" in inp and "path" in inp:
+    kind = inp.get("kind")
+    if kind == "file-name":
+        check_file_name(ctx, real, ctx.driver, inp["atoms"], inp["name"], inp["fmt"], form=inp.get("form"), label="replay")
+    elif kind == "orig-changed":
+        check_original_changed(ctx, real, ctx.driver, inp["atoms"], inp["other"], inp["mode"], inp["write"], label="replay")
+    elif kind == "foreign":
+        check_foreign(ctx, real, ctx.driver, inp.get("stated"), inp["pdb"], inp["cif"], None, label="replay")
+    elif kind == "same-path" or "filter_by_elements" in inp or inp.get("after_filtered_reads"):
+        run(ctx)     # a sequence in one process: re-run the stream that produced it
+    elif "atoms" in inp and "path" in inp:
         e = inp.get("edit")
-        run_chain(ctx, real, inp["atoms"], tuple(inp["path"]), d=ctx.driver, label="replay", edit=tuple(e) if e else None)
+        run_chain(ctx, real, inp["atoms"], tuple(inp["path"]), d=ctx.driver, label="replay", edit=tuple(e) if e else None,
+                  form=inp.get("form"), orig_gone=bool(inp.get("orig_gone")))
     elif "atoms" in inp:
-        s = make_struct(inp["atoms"])
+        s = make_struct(inp["atoms"], form=inp.get("form"))
         p1, _, _ = real.write(s, "pdb")
         p2, _, _ = real.write(s, "cif")
         _, a1 = real.read(p1, keep_non_atom_records=True)
